@@ -428,7 +428,8 @@ def run_check(plugin_mod, tier, replay=None):
         disagreements, coq_errors = [], []
         if ok_corr and live:
             terms = [P.coq_case(cases[i], obs[i]) for i in live]
-            bad, coq_errors = run_coq_cases(P.COQ_HEADER, P.COQ_CASE_TYPE, P.COQ_AGREE, terms, work)
+            bad, coq_errors = run_coq_cases(P.COQ_HEADER, P.COQ_CASE_TYPE, P.COQ_AGREE, terms, work,
+                                             shard=getattr(P, 'COQ_SHARD', 400))
             disagreements = [live[j] for j in bad]
             for e in coq_errors:
                 broken.append({'kind': 'tie-B', 'what': 'correspondence could not be evaluated', 'detail': e})
